@@ -1851,7 +1851,13 @@ pub fn run_c07(w: &mut W) {
                 w.rep.inconclusive += 1;
                 continue;
             }
-            let to = 40000 + rng.below(20000) as u16;
+            // a key nobody uses: not the withheld id and not an id this exporter ever announced
+            // (filing the entry over a live template would replace that template)
+            let mut to = 40000 + rng.below(20000) as u16;
+            let held = |p: &NetflowParser, k: u16| p.v9_parser.templates.contains_key(&k) || p.v9_parser.options_templates.contains_key(&k) || p.ipfix_parser.templates.contains_key(&k) || p.ipfix_parser.options_templates.contains_key(&k);
+            while to == wid || held(&sut.parsers[0], to) || shadow.v9_t.contains_key(&to) || shadow.v9_o.contains_key(&to) || shadow.ix_t.contains_key(&to) || shadow.ix_o.contains_key(&to) {
+                to = 256 + rng.below(65280) as u16;
+            }
             if !sut.rekey(0, if v9 { "v9.templates" } else { "ipfix.templates" }, wid, to) {
                 w.rep.inconclusive += 1;
                 continue;
